@@ -181,12 +181,13 @@ var c32ops = []c32alpha{
 func TestVerifC32(t *testing.T) {
 	nThreads := mc.Pick(2, 3)
 	opsPer := 2
-	maxDev := mc.Pick(2, 2)
-	nAlpha := mc.Pick(5, 6) // the quick tier leaves out the second peer
+	maxDev := mc.Pick(2, 3)
+	nAlpha := 6
+	delay := mc.Thorough() // three threads: delay bounding keeps the thorough tier exhaustive
 	peers := []boson.Address{boson.MustParseHexAddress("aa00000000000000000000000000000000000000000000000000000000000000"), boson.MustParseHexAddress("bb00000000000000000000000000000000000000000000000000000000000000")}
 	pname := map[string]string{peers[0].String(): "P", peers[1].String(): "Q"}
 	mc.Run(t, mc.Config{ID: "C32", Name: "C32-accounting", MaxDev: maxDev, ShardLevels: 3, Params: map[string]interface{}{
-		"threads": nThreads, "ops_per_thread": opsPer, "preemption_bound": maxDev, "alphabet": fmt.Sprint(c32ops[:nAlpha]),
+		"threads": nThreads, "ops_per_thread": opsPer, "deviation_bound": maxDev, "delay_bounded": delay, "alphabet": fmt.Sprint(c32ops[:nAlpha]),
 		"threshold": c32Threshold, "tolerance": c32Tolerance, "available": c32Available, "watched": []string{"accountingPeer.unPaidTraffic", "Accounting.accountingPeers"}}},
 		func(x *mc.X) {
 			auto := x.Bool()
@@ -226,7 +227,7 @@ func TestVerifC32(t *testing.T) {
 			}
 			st.rec = func(kind, peer string, arg int64, f func() string) { record("settle")(kind, pname[peer], arg, f) }
 			negative := ""
-			verdict := vsched.Run(x, vsched.Options{MaxSteps: 4000}, func(s *vsched.S) {
+			verdict := vsched.Run(x, vsched.Options{MaxSteps: 4000, DelayBounded: delay}, func(s *vsched.S) {
 				acc = NewAccounting(big.NewInt(c32Tolerance), big.NewInt(c32Threshold), logging.New(io.Discard, 0), nil, st)
 				st.acc = acc
 				for i := range progs {
